@@ -7,8 +7,10 @@ LEVEL = "proof"
 RULE = ("Flatten::Apply in-process for en/fr/de/es/cs on all sequences of <= 3 (quick) / 4 (thorough) symbols over an alphabet of rule "
         "triggers (quotes, backticks, ampersand entities, ' s, year-old, digit-brace, ligatures, dashes), spaces, letters and "
         "supplementary-plane characters, plus seeded longer lines; oracle = the code-point level specification (leftmost, longer "
-        "alternatives first, copy otherwise) with ICU's u_isspace passed in; bin/process_unicode for all 8 flag combinations x 5 "
-        "languages on line sequences, expected line = ICU lower / model flatten / ICU NFKC composed in order, checked per line "
+        "alternatives first, copy otherwise) with ICU's u_isspace passed in; util::Normalize (both overloads) and util::ToLower against Normalizer2 / toLower on sequences over composing material (combining "
+        "marks in and out of order, jamo, compatibility and precomposed forms), and every Normalize output must satisfy "
+        "Normalizer2::isNormalized; bin/process_unicode for all 8 flag combinations x 5 "
+        "languages on line sequences, expected line = ICU lower / model flatten / ICU NFKC (Normalizer2 called directly, not util::Normalize) composed in order, checked per line "
         "index; non-trivial = distinct (language, text) / (flags, language, lines)")
 ASSUMPTIONS = ["ICU's toLower, NFKC and u_isspace are parameters of the model (their values are taken from the same ICU build)",
                "rule tables are regenerated from util/utf8_icu.cc as built by the C++ code"]
@@ -71,9 +73,40 @@ def run(ctx):
             o, x, y = bad[0]
             pvlib.report_violation(ctx, "corr:flat.apply", {"ops": [o], "impl": x, "model": y, "correspondence": "PV.Flatten.apply vs Flatten::Apply"},
                                    no_input=True, summary=f"{o}: impl {x} model {y}")
+    # ---- util::Normalize / util::ToLower against ICU's own Normalizer2 / UnicodeString::toLower (the model's parameters):
+    # sequences over composing material (base letters + combining marks in and out of canonical order, conjoining jamo,
+    # compatibility characters that force the slow path, precomposed forms)
+    comp = ["e", "\u0301", "\u0323", "a", "\u0308", "\u1112", "\u1161", "\u11ab", "ﬁ", "é", "Å", "\u212b", "①", "Ａ", "\u0345", " ", "x",
+            "\u0f71", "\u0f72", "\U0001d15e", "İ", "Σ", "ς"]
+    ntexts = [""] + ["".join(t) for n in (1, 2, 3) for t in itertools.product(comp, repeat=n) if n < 3 or rng.random() < (0.15 if ctx.tier == "quick" else 1.0)]
+    ntexts += ["".join(rng.choice(comp) for _ in range(rng.randrange(4, 16))) for _ in range(300 if ctx.tier == "quick" else 5000)]
+    ntexts = list(dict.fromkeys(ntexts))
+    un = pvlib.run_lines(impl, ["util.nfkc " + u16(t) for t in ntexts], env=pvlib.san_env())
+    ic = pvlib.run_lines(impl, ["icu.nfkc " + u16(t) for t in ntexts], env=pvlib.san_env())
+    u8 = pvlib.run_lines(impl, ["util.nfkc8 " + hx(t.encode("utf-8")) for t in ntexts], env=pvlib.san_env())
+    isn = pvlib.run_lines(impl, ["icu.isnfkc " + (x.split()[1] if x.startswith("ok ") else "-") for x in un], env=pvlib.san_env())
+    ul = pvlib.run_lines(impl, ["util.lower8 " + hx(t.encode("utf-8")) for t in ntexts], env=pvlib.san_env())
+    il = pvlib.run_lines(impl, ["icu.lower " + u16(t) for t in ntexts], env=pvlib.san_env())
+    ctx.count("util.nfkc", len(ntexts), [("nfkc", t) for t in ntexts])
+    ctx.count("util.lower", len(ntexts), [("lower", t) for t in ntexts])
+    for t, x, y, z, n_ in sorted(zip(ntexts, un, ic, u8, isn), key=lambda q: len(q[0])):
+        z16 = "ok " + u16(unhx(z.split()[1]).decode("utf-8", "surrogatepass")) if z.startswith("ok ") else z
+        if x != y or z16 != y or n_ != "ok 1":
+            pvlib.report_violation(ctx, "nfkc:" + u16(t), {"ops": ["util.nfkc " + u16(t), "icu.nfkc " + u16(t), "util.nfkc8 " + hx(t.encode("utf-8"))], "text": t,
+                                   "util_Normalize": x, "util_Normalize_utf8": z16, "icu_Normalizer2_NFKC": y, "output_isNormalized": n_},
+                                   summary=f"util::Normalize on {[hex(ord(c)) for c in t]}: got {x} (UTF-8 overload {z16}); ICU NFKC is {y}; "
+                                           f"output is NFKC-normalized: {n_}")
+            break
+    for t, x, y in sorted(zip(ntexts, ul, il), key=lambda q: len(q[0])):
+        x16 = "ok " + u16(unhx(x.split()[1]).decode("utf-8", "surrogatepass")) if x.startswith("ok ") else x
+        if x16 != y:
+            pvlib.report_violation(ctx, "lower:" + u16(t), {"ops": ["util.lower8 " + hx(t.encode("utf-8")), "icu.lower " + u16(t)], "text": t, "util_ToLower": x16, "icu_toLower": y},
+                                   summary=f"util::ToLower on {[hex(ord(c)) for c in t]}: got {x16}; ICU toLower is {y}")
+            break
     # ---- the tool: all 8 flag sets x languages x line sequences, per line index
     pool = ["Hello World", "``quoted'' text", "John ' s car", "5{ years", "æsop ﬁsh", "x\U0001F600y", "& quot ; hi", "STRASSE Ä", "a b",
-            "", "plain", "“q”", "10 - year - old boy", "① Ａ", "\U00010348\U00010348", "tail'"]
+            "", "plain", "“q”", "10 - year - old boy", "① Ａ", "\U00010348\U00010348", "tail'",
+            "cafe\u0301", "cafe\u0301 ﬁn", "\u1112\u1161\u11ab", "a\u0323\u0308 q\u0308\u0323", "A\u030a ÅNGSTRÖM \u212b"]
     flagsets = list(itertools.product([0, 1], repeat=3))
     nseq = 10 if ctx.tier == "quick" else 60
     for (lo, fl, nf) in flagsets:
